@@ -19,8 +19,8 @@ EXPLANATION = (
     "loop-free (z3, one path each). One step of every LC-orbit explorer is local_comp_graph, whose effect on a symbolic "
     "graph is checked against the oracle's local complementation (stays in the orbit by definition of the orbit).")
 ASSUMPTIONS = ["A1 z3 sound", "A2 numpy object-array semantics", "A5 networkx conversions faithful (local_comp_graph)"]
-BOUNDS = {"quick": {"relabel": "n<=4, all n! permutations", "orbit step": "n<=5"},
-          "thorough": {"relabel": "n<=5, all n! permutations", "orbit step": "n<=6"}}
+BOUNDS = {"quick": {"relabel": "n<=4, all n! permutations", "orbit step": "n<=5 and n=11 (single path, graph stays symbolic)"},
+          "thorough": {"relabel": "n<=5, all n! permutations", "orbit step": "n<=6 and n=11,12"}}
 OUTSIDE = ("iso_finder / _label_finder / _add_labels / automorph_check (sampling loops over sets of tuples; iso_finder cannot "
            "run in this sandbox: np.math does not exist in numpy 2.x), get_relabel_map (networkx GraphMatcher), "
            "lc_orbit_finder / rgs / linear / depth-first walkers (networkx + RNG) -- none of these clauses is decided here")
@@ -80,7 +80,7 @@ def plan(tier):
         chunk = 24
         for k in range(0, len(perms), chunk):
             jobs.append((Relabel(n=n, perms=perms[k:k + chunk]), {}))
-    for n in ([3, 4, 5] if q else [3, 4, 5, 6]):
-        for v in range(n):
+    for n in ([3, 4, 5, 11] if q else [3, 4, 5, 6, 11, 12]):
+        for v in (range(n) if n <= 6 else (0, 1, n // 2, n - 1)):
             jobs.append((OrbitStep(n=n, v=v), {}))
     return jobs
